@@ -52,7 +52,7 @@ Record reply := mkReply { r_code : N; r_tx : txclass; r_lines : list bytes }.
 Inductive err :=
 | ECode (c : N) | EProto | EEof | ETimeout | EWrite | EClosed | EHang
 | ETls | ENoStartTLS | ENoAuth | ENoMech | ENoDiscover | ENonTLS | ENoConn | EBadType
-| EUnenc | EWrongHost | EMech | EHelloAfter | ENotConnected | ESend | EFuel.
+| EUnenc | EWrongHost | EMech | EHelloAfter | ENotConnected | ESend | EFuel | EDial.
 
 Inductive res (A : Type) := Ok (a : A) | Err (e : err).
 Arguments Ok {A} _.
@@ -86,29 +86,33 @@ Record srv := mkSrv {
   shs      : bool;              (* waiting for the TLS handshake after a 220 to STARTTLS *)
   stls     : bool;
   slog     : list (verb * bool * N);   (* processed positions (verb, inside TLS, reply code; 0 = none), reversed *)
-  queue    : list reply         (* replies on the wire, not yet read *)
+  queue    : list reply;        (* replies on the wire, not yet read *)
+  refuse   : nat                (* dial attempts that fail (connection refused) before the server accepts one *)
 }.
 
 Definition set_script (s : srv) (x : list decision) : srv :=
-  mkSrv x (mute s) (caps s) (caps_tls s) (hs s) (sopen s) (silent s) (sauth s) (sdata s) (shs s) (stls s) (slog s) (queue s).
+  mkSrv x (mute s) (caps s) (caps_tls s) (hs s) (sopen s) (silent s) (sauth s) (sdata s) (shs s) (stls s) (slog s) (queue s) (refuse s).
 Definition set_mute (s : srv) (x : option nat) : srv :=
-  mkSrv (script s) x (caps s) (caps_tls s) (hs s) (sopen s) (silent s) (sauth s) (sdata s) (shs s) (stls s) (slog s) (queue s).
+  mkSrv (script s) x (caps s) (caps_tls s) (hs s) (sopen s) (silent s) (sauth s) (sdata s) (shs s) (stls s) (slog s) (queue s) (refuse s).
 Definition set_sopen (s : srv) (x : bool) : srv :=
-  mkSrv (script s) (mute s) (caps s) (caps_tls s) (hs s) x (silent s) (sauth s) (sdata s) (shs s) (stls s) (slog s) (queue s).
+  mkSrv (script s) (mute s) (caps s) (caps_tls s) (hs s) x (silent s) (sauth s) (sdata s) (shs s) (stls s) (slog s) (queue s) (refuse s).
 Definition set_silent (s : srv) (x : bool) : srv :=
-  mkSrv (script s) (mute s) (caps s) (caps_tls s) (hs s) (sopen s) x (sauth s) (sdata s) (shs s) (stls s) (slog s) (queue s).
+  mkSrv (script s) (mute s) (caps s) (caps_tls s) (hs s) (sopen s) x (sauth s) (sdata s) (shs s) (stls s) (slog s) (queue s) (refuse s).
 Definition set_sauth (s : srv) (x : option (nat * bytes)) : srv :=
-  mkSrv (script s) (mute s) (caps s) (caps_tls s) (hs s) (sopen s) (silent s) x (sdata s) (shs s) (stls s) (slog s) (queue s).
+  mkSrv (script s) (mute s) (caps s) (caps_tls s) (hs s) (sopen s) (silent s) x (sdata s) (shs s) (stls s) (slog s) (queue s) (refuse s).
 Definition set_sdata (s : srv) (x : bool) : srv :=
-  mkSrv (script s) (mute s) (caps s) (caps_tls s) (hs s) (sopen s) (silent s) (sauth s) x (shs s) (stls s) (slog s) (queue s).
+  mkSrv (script s) (mute s) (caps s) (caps_tls s) (hs s) (sopen s) (silent s) (sauth s) x (shs s) (stls s) (slog s) (queue s) (refuse s).
 Definition set_shs (s : srv) (x : bool) : srv :=
-  mkSrv (script s) (mute s) (caps s) (caps_tls s) (hs s) (sopen s) (silent s) (sauth s) (sdata s) x (stls s) (slog s) (queue s).
+  mkSrv (script s) (mute s) (caps s) (caps_tls s) (hs s) (sopen s) (silent s) (sauth s) (sdata s) x (stls s) (slog s) (queue s) (refuse s).
 Definition set_stls (s : srv) (x : bool) : srv :=
-  mkSrv (script s) (mute s) (caps s) (caps_tls s) (hs s) (sopen s) (silent s) (sauth s) (sdata s) (shs s) x (slog s) (queue s).
+  mkSrv (script s) (mute s) (caps s) (caps_tls s) (hs s) (sopen s) (silent s) (sauth s) (sdata s) (shs s) x (slog s) (queue s) (refuse s).
 Definition set_slog (s : srv) (x : list (verb * bool * N)) : srv :=
-  mkSrv (script s) (mute s) (caps s) (caps_tls s) (hs s) (sopen s) (silent s) (sauth s) (sdata s) (shs s) (stls s) x (queue s).
+  mkSrv (script s) (mute s) (caps s) (caps_tls s) (hs s) (sopen s) (silent s) (sauth s) (sdata s) (shs s) (stls s) x (queue s) (refuse s).
 Definition set_queue (s : srv) (x : list reply) : srv :=
-  mkSrv (script s) (mute s) (caps s) (caps_tls s) (hs s) (sopen s) (silent s) (sauth s) (sdata s) (shs s) (stls s) (slog s) x.
+  mkSrv (script s) (mute s) (caps s) (caps_tls s) (hs s) (sopen s) (silent s) (sauth s) (sdata s) (shs s) (stls s) (slog s) x (refuse s).
+
+Definition set_refuse (s : srv) (x : nat) : srv :=
+  mkSrv (script s) (mute s) (caps s) (caps_tls s) (hs s) (sopen s) (silent s) (sauth s) (sdata s) (shs s) (stls s) (slog s) (queue s) x.
 
 Definition pop_decision (s : srv) : decision * srv :=
   match script s with
@@ -262,8 +266,11 @@ Definition run_prim {B : Type} (p : prim B) (w : world) : B * world :=
   | PConnect ssl =>
       let c := w_conn w in
       let s := w_srv w in
-      if opened c then (Some EClosed, w)      (* a program dials at most once *)
-      else if ssl then
+      if opened c then (Some EClosed, w)      (* a program opens at most one connection *)
+      else match refuse s with
+      | S n => (Some EDial, with_srv w (set_refuse s n))      (* the dial function fails: no connection *)
+      | O =>
+      if ssl then
         match hs s with
         | HsOk =>
             let s1 := set_stls s true in
@@ -275,6 +282,7 @@ Definition run_prim {B : Type} (p : prim B) (w : world) : B * world :=
       else
         let (d, s1) := pop_decision s in
         (None, with_srv (with_conn w (mkConn true true false (armed c) (hung c))) (apply_decision s1 VGreeting d))
+      end
   | PWrite v =>
       if negb (copen (w_conn w)) then (false, w)
       else if negb (sopen (w_srv w)) then (false, w)
@@ -565,7 +573,8 @@ Record config := mkCfg {
   fx_close   : bool;              (* dial closes the client on every error return *)
   fx_quit    : bool;              (* CloseWithSMTPClient closes when QUIT fails *)
   fx_arm     : bool;              (* deadline set after the dial / before NOOP / before QUIT *)
-  fx_send    : bool               (* sendSingleMsg: RSET after a rejected DATA; close when such a RSET fails *)
+  fx_send    : bool;              (* sendSingleMsg: RSET after a rejected DATA; close when such a RSET fails *)
+  c_fallback : bool               (* a fallback port is configured (WithTLSPortPolicy(TLSOpportunistic), WithSSLPort(true)) *)
 }.
 
 Definition is_localhost (h : bytes) : bool := existsb (bytes_eqb h) Gen.smtp_localhost_names.
@@ -668,8 +677,16 @@ Definition close_failed (cfg : config) : prog unit :=
   else Ret tt.
 
 (* DialToSMTPClientWithContext *)
-Definition dial (fuel : nat) (cfg : config) : prog (res unit) :=
+(* the dial function under the deadline context; when it fails and a fallback port is set it is called once more *)
+Definition connect (cfg : config) : prog (option err) :=
   c <- prim1 (PConnect (c_ssl cfg)) ;;
+  match c with
+  | Some e => if c_fallback cfg then prim1 (PConnect (c_ssl cfg)) else Ret (Some e)
+  | None => Ret None
+  end.
+
+Definition dial (fuel : nat) (cfg : config) : prog (res unit) :=
+  c <- connect cfg ;;
   match c with
   | Some e => Ret (Err e)
   | None =>
@@ -835,11 +852,20 @@ Definition session (fuel : nat) (cfg : config) (msgs : list nat) : prog (list (r
       Ret [Ok tt; s; r; c]
   end.
 
+(* QuickSend (quicksend.go): NewClient(host, WithPort, WithTLSPolicy(TLSOpportunistic)), auto-discovered
+   authentication if credentials are given, one message, DialAndSend *)
+Definition quick_send (fuel : nat) (with_auth : bool) (host : bytes) (fxc fxq fxa fxs : bool) (nrcpt : nat)
+  : prog (res unit * option phase) :=
+  dial_and_send fuel
+    (mkCfg Opportunistic false (if with_auth then Gen.smtp_auth_autodiscover else Gen.smtp_auth_noauth) None host false
+           fxc fxq fxa fxs false)
+    [nrcpt].
+
 (* ------------------------------------------------------------------------------------------------ *)
 (* running against a fresh world *)
 
 Definition srv0 (sc : list decision) (mu : option nat) (cp cpt : list bytes) (h : hs_oracle) : srv :=
-  mkSrv sc mu cp cpt h true false None false false false [] [].
+  mkSrv sc mu cp cpt h true false None false false false [] [] O.
 
 Definition world0 (s : srv) : world := mkW s conn0 cs0 [].
 
@@ -853,6 +879,8 @@ Definition src_fx_quit : bool := Gen.close_on_quit_failure.
 Definition src_fx_arm : bool :=
   Gen.dial_arms_before_greeting && Gen.checkconn_deadline_before_noop && Gen.close_updates_deadline.
 Definition src_fx_send : bool := Gen.send_aborts_on_failed_rset.
+(* no other deadline call exists (nothing clears or shortens the deadline) and each one is now + the timeout *)
+Definition src_deadline_sites_ok : bool := (Gen.deadline_call_sites =? 2) && Gen.deadline_args_are_timeout.
 
 (* outcome of a call in the sense of DESIGN 1.1: Hang when a read blocked for ever *)
 Inductive outcome (A : Type) := Returned (a : A) | Hang.
@@ -903,8 +931,8 @@ Definition run_case (k : kind) (cfg : config) (s : srv) (msgs : list nat) : list
   end.
 
 (* the configuration with the repairs as they are on the working tree *)
-Definition cfg_src (p : policy) (ssl : bool) (a : bytes) (custom : option auth_impl) (host : bytes) (nonoop : bool) : config :=
-  mkCfg p ssl a custom host nonoop src_fx_close src_fx_quit src_fx_arm src_fx_send.
+Definition cfg_src (p : policy) (ssl : bool) (a : bytes) (custom : option auth_impl) (host : bytes) (nonoop fb : bool) : config :=
+  mkCfg p ssl a custom host nonoop src_fx_close src_fx_quit src_fx_arm src_fx_send fb.
 
 Definition blocking (k : rkind) : bool := match k with KEof => false | _ => true end.
 
